@@ -4,6 +4,7 @@ import (
 	"bytes"
 	"encoding/hex"
 	"fmt"
+	"sort"
 	"strings"
 	"testing"
 
@@ -277,6 +278,9 @@ func TestE1Codec(t *testing.T) {
 			if !ok {
 				rep.Add(Finding{Kind: "oracle", Property: "C19", Oracle: "configuration read back differs from what was written", Case: line, Impl: fmt.Sprintf("%v", back)})
 			}
+			// differential: the model decodes the real bytes, the real decoder decodes the model's bytes
+			// (map order on the wire is the sender's choice: compared as maps; byte-exact when there is no choice)
+			cfgDifferential(rep, drv, line, c, data, i%50 == 9, t)
 			md := &raft.SnapshotMetadata{LastIncludedIndex: genU64(rng), LastIncludedTerm: genU64(rng), Configuration: genBytes(rng)}
 			mline := fmt.Sprintf("METADATA | li=%d lt=%d cfg=%s", md.LastIncludedIndex, md.LastIncludedTerm, hx(md.Configuration))
 			rep.Case(mline, true)
@@ -316,6 +320,141 @@ func truncations(rep *Report, drv *Driver, kind string, wire []byte, dec func([]
 		}
 		if impl != model {
 			rep.Add(Finding{Kind: "mismatch", Property: "C19", Case: line, Impl: impl, Model: model, Diff: []string{"malformed input: decoders disagree"}})
+		}
+	}
+}
+
+func parseCfgLine(out string) (map[string]string, map[string]bool, uint64, bool) {
+	ms, vs := map[string]string{}, map[string]bool{}
+	var idx uint64
+	unhex := func(h string) (string, bool) {
+		if h == "-" {
+			return "", true
+		}
+		b, err := hex.DecodeString(h)
+		return string(b), err == nil
+	}
+	for _, tok := range strings.Fields(out) {
+		kv := strings.SplitN(tok, "=", 2)
+		if len(kv) != 2 {
+			return nil, nil, 0, false
+		}
+		switch kv[0] {
+		case "index":
+			if _, err := fmt.Sscan(kv[1], &idx); err != nil {
+				return nil, nil, 0, false
+			}
+		case "members", "voters":
+			if kv[1] == "-" {
+				continue
+			}
+			for _, p := range strings.Split(kv[1], ";") {
+				ab := strings.SplitN(p, ":", 2)
+				if len(ab) != 2 {
+					return nil, nil, 0, false
+				}
+				k, ok := unhex(ab[0])
+				if !ok {
+					return nil, nil, 0, false
+				}
+				if kv[0] == "members" {
+					v, ok := unhex(ab[1])
+					if !ok {
+						return nil, nil, 0, false
+					}
+					ms[k] = v // later entries override earlier ones, as in the Go map
+				} else {
+					vs[k] = ab[1] == "1"
+				}
+			}
+		}
+	}
+	return ms, vs, idx, true
+}
+
+func cfgEqual(c *raft.Configuration, ms map[string]string, vs map[string]bool, idx uint64) bool {
+	if idx != c.Index || len(ms) != len(c.Members) || len(vs) != len(c.IsVoter) {
+		return false
+	}
+	for k, v := range c.Members {
+		if got, ok := ms[k]; !ok || got != v {
+			return false
+		}
+	}
+	for k, v := range c.IsVoter {
+		if got, ok := vs[k]; !ok || got != v {
+			return false
+		}
+	}
+	return true
+}
+
+func cfgDifferential(rep *Report, drv *Driver, line string, c *raft.Configuration, data []byte, trunc bool, t *testing.T) {
+	show := func(x *raft.Configuration) string { return fmt.Sprintf("index=%d members=%v voters=%v", x.Index, x.Members, x.IsVoter) }
+	dec, err := drv.Ask("DEC | CFG | " + hx(data))
+	if err != nil {
+		t.Fatal(err)
+	}
+	ms, vs, idx, ok := parseCfgLine(dec)
+	if dec == "err" || !ok || !cfgEqual(c, ms, vs, idx) {
+		rep.Add(Finding{Kind: "mismatch", Property: "C19", Case: line, Impl: show(c) + " wire=" + hx(data), Model: dec, Diff: []string{"decode: the model reads something else from the real bytes"}})
+	}
+	// the model's encoding, keys in sorted order
+	var ids []string
+	for k := range c.Members {
+		ids = append(ids, k)
+	}
+	sort.Strings(ids)
+	var mp, vp []string
+	for _, k := range ids {
+		mp = append(mp, hx([]byte(k))+":"+hx([]byte(c.Members[k])))
+	}
+	ids = ids[:0]
+	for k := range c.IsVoter {
+		ids = append(ids, k)
+	}
+	sort.Strings(ids)
+	for _, k := range ids {
+		vp = append(vp, hx([]byte(k))+":"+b01(c.IsVoter[k]))
+	}
+	j := func(xs []string) string {
+		if len(xs) == 0 {
+			return "-"
+		}
+		return strings.Join(xs, ";")
+	}
+	enc, err := drv.Ask(fmt.Sprintf("ENC | CFG | index=%d members=%s voters=%s", c.Index, j(mp), j(vp)))
+	if err != nil {
+		t.Fatal(err)
+	}
+	var wire []byte
+	if enc != "-" {
+		wire, _ = hex.DecodeString(enc)
+	}
+	back, derr := codec.DecodeConfiguration(wire)
+	if derr != nil || !cfgEqual(c, back.Members, back.IsVoter, back.Index) {
+		rep.Add(Finding{Kind: "mismatch", Property: "C19", Case: line, Impl: fmt.Sprintf("%v err=%v", back, derr), Model: enc, Diff: []string{"encode: the real decoder reads something else from the model's bytes"}})
+	}
+	if len(c.Members) <= 1 && len(c.IsVoter) <= 1 && enc != hx(data) {
+		rep.Add(Finding{Kind: "mismatch", Property: "C19", Case: line, Impl: hx(data), Model: enc, Diff: []string{"encode: bytes differ although the maps leave no choice of order"}})
+	}
+	rep.Hit("CONFIG-differential")
+	if !trunc {
+		return
+	}
+	for k := 0; k < len(data); k++ {
+		p := data[:k]
+		tl := fmt.Sprintf("TRUNC CFG | %s", hx(p))
+		rep.Case(tl, true)
+		rep.Hit("truncated")
+		got, gerr := codec.DecodeConfiguration(p)
+		model, e := drv.Ask("DEC | CFG | " + hx(p))
+		if e != nil {
+			t.Fatal(e)
+		}
+		ms, vs, idx, ok := parseCfgLine(model)
+		if (gerr != nil) != (model == "err") || (gerr == nil && (!ok || !cfgEqual(&got, ms, vs, idx))) {
+			rep.Add(Finding{Kind: "mismatch", Property: "C19", Case: tl, Impl: fmt.Sprintf("%v err=%v", got, gerr), Model: model, Diff: []string{"malformed input: decoders disagree"}})
 		}
 	}
 }
